@@ -104,7 +104,20 @@ def parseBatch? (fs : List String) : Option (List Op) :=
       gs.mapM fun g => parseOp? ("rewrap" :: g)
   | _ => none
 
+/-- `softdel-fault <restore>`: keys/<name>/soft-delete (or soft-delete-restore) with a planned fault on its single Put.
+The handler sets the flag on the policy and calls `Persist`; with the Put failing, `Persist` rolls the key material back
+and the handler restores the flag (finding F52, repaired): the key is as it was — exactly a `config` request that
+changes nothing and fails at the same Put.  Without a pending fault the operation is outside the model. -/
+def softDelFault (st : St) : St × String :=
+  if st.failPut = 0 then (st, "unmodelled")
+  else
+    let (st', out) := step st (.config none none none none none)
+    (st', showOut out)
+
 def stepLine (st : St) (fs : List String) : St × String :=
+  match fs with
+  | ["softdel-fault", _] => softDelFault st
+  | _ =>
   match parseBatch? fs with
   | some items =>
     let (st', r) := batch st items
